@@ -38,7 +38,9 @@ def make_graph(kind, V, g):
             e.add((0, 1))
         return UndirectedGraph.init_from_edges(np.array(sorted(e)), V)
     if kind == "tree":
-        return Tree.init_from_edges(np.array([[int(g.randint(0, i)), i] for i in range(1, V)]), V, root_vertex=0)
+        parents = sorted(int(g.randint(0, i)) for i in range(1, V))
+        parents = [min(p, i) for i, p in enumerate(parents)]
+        return Tree.init_from_edges(np.array([[parents[i - 1], i] for i in range(1, V)]), V, root_vertex=0)
     if kind == "directed":
         e = {(i, j) for i in range(V) for j in range(i + 1, V) if g.rand() < 0.5}  # i<j only: no antiparallel pairs
         if not e:
